@@ -171,8 +171,9 @@ structure NetFD where
 /-- net_netfd_conn.go `netFD.Close`:
 ```
 if atomic.AddUint32(&c.closed, 1) != 1 { return nil }
-if !c.detaching && c.fd > 2 { err = syscall.Close(c.fd) ... }
+if atomic.LoadInt32(&c.detaching) == 0 && c.fd > 2 { err = syscall.Close(c.fd) ... }
 ```
+(`detaching` is an atomic int32 since the fix of D14; before it was a plain bool – same logic.)
 When `detaching` is set the number is deliberately left open: the caller of `Detach` takes it over
 (ghost event `rel`).  A number ≤ 2 is neither closed nor handed over. -/
 def NetFD.close (c : NetFD) : M NetFD :=
